@@ -237,6 +237,10 @@ class PlotCollection:
             pdf.close()
             logger.info("Plots saved to " + file_path)
         else:
+            if not ext:
+                # savefig() appends the default format to a name without
+                # extension: check the path that is actually written.
+                ext = '.' + mpl.rcParams["savefig.format"]
             for name, fig in self.figures.items():
                 dest = base + '_' + name + ext
                 if confirm_overwrite and not user.check_and_confirm_overwrite(
